@@ -169,6 +169,7 @@ pub struct Sess {
     pub property: String,
     pub step: usize,
     pub sub: usize,
+    pub next_is_main: bool,
     /// the input string and the returned MathML of the last successful set_mathml
     pub cur_src: Option<String>,
     pub cur_mathml: Option<String>,
@@ -262,6 +263,9 @@ impl Sess {
     }
 
     pub fn raw_call(&mut self, op: &Op) -> Res {
+        // sub-call numbering for in-call injections: 0 = the trace step's own call; k >= 1 = the k-th other call
+        // made during the step (checker queries, nested argument resolution), in order
+        let is_main = std::mem::take(&mut self.next_is_main);
         // resolve symbolic arguments first (may itself make nested calls)
         let resolved: Op = match op {
             Op::SetMathml(e) => Op::SetMathml(ExprRef::Lit(self.resolve_expr(e))),
@@ -274,7 +278,13 @@ impl Sess {
         {
             let g = self.world.lock();
             let mut g = self.world.yield_point(g, self.id, true);
-            g.begin_call(self.id, self.step, self.sub);
+            let sub = if is_main {
+                0
+            } else {
+                self.sub += 1;
+                self.sub
+            };
+            g.begin_call(self.id, self.step, sub);
             g.event(self.id, &format!("call {}", desc));
         }
         if let Some(m) = CALL_DESC.get() {
@@ -282,7 +292,6 @@ impl Sess {
                 *d = desc.clone();
             }
         }
-        self.sub += 1;
         let res = dispatch(&resolved);
         let seam = {
             let mut g = self.world.lock();
@@ -439,6 +448,7 @@ fn run_session(world: Arc<World>, ctx: Arc<ExecCtx>, trace: Arc<Trace>, id: usiz
         property: trace.property.clone(),
         step: 0,
         sub: 0,
+        next_is_main: false,
         cur_src: None,
         cur_mathml: None,
         cur_ids: vec![],
@@ -458,6 +468,11 @@ fn run_session(world: Arc<World>, ctx: Arc<ExecCtx>, trace: Arc<Trace>, id: usiz
             checker.before_step(&mut sess, step);
             match step {
                 Step::Call(op) => {
+                    for pc in trace.pre_call_env.iter().filter(|pc| pc.session == id && pc.step == i) {
+                        let mut g = world.lock();
+                        g.apply_env(id, &pc.event);
+                    }
+                    sess.next_is_main = true;
                     let res = sess.raw_call(op);
                     checker.after_call(&mut sess, op, &res);
                 }
